@@ -63,6 +63,7 @@ type tokEnv struct {
 	last     chain.M
 	perBlock int
 	record   bool
+	cfg      chain.M // effective driver configuration (written as the Config event)
 }
 
 func newTokEnv(fl *drv.Flags) *tokEnv {
@@ -85,6 +86,11 @@ func newTokEnv(fl *drv.Flags) *tokEnv {
 	baseFee := fl.CfgInt("basefee", 5)
 	taxNum := fl.CfgInt("taxnum", 2)
 	mintNum := fl.CfgInt("mintnum", 1)
+	e.cfg = chain.M{"users": fmt.Sprint(fl.CfgInt("users", 3)), "quirks": fmt.Sprint(fl.CfgInt("quirks", 0)),
+		"minunits": fl.CfgStr("minunits", "maa:mbb"), "stake": fmt.Sprint(initStake), "basefee": fmt.Sprint(baseFee),
+		"taxnum": fmt.Sprint(taxNum), "taxden": fmt.Sprint(e.taxDen), "mintnum": fmt.Sprint(mintNum),
+		"mintden": fmt.Sprint(e.mintDen), "regin": fl.CfgStr("regin", ""), "regout": fl.CfgStr("regout", ""),
+		"regrn": fmt.Sprint(fl.CfgInt("regrn", 1)), "regrd": fmt.Sprint(fl.CfgInt("regrd", 1))}
 	accts := map[string]string{}
 	for _, u := range e.users {
 		accts[u] = fmt.Sprintf("%d%s", initStake, stake)
@@ -701,9 +707,22 @@ func tokRun(fl *drv.Flags, beh []chain.M, w *chain.TraceWriter) {
 		return
 	}
 	e := newTokEnv(fl)
+	e.start(w)
+	e.exec(beh, w)
+}
+
+// start writes the Init line.  The line records the effective driver
+// configuration (chain.DriverCfg), so that a violating prefix cut out of any
+// trace — random histories draw their own configuration — is replayed on an
+// identically configured chain.
+func (e *tokEnv) start(w *chain.TraceWriter) {
+	var kv []string
+	for _, k := range chain.SortedKeys(e.cfg) {
+		kv = append(kv, fmt.Sprintf("%s=%v", k, e.cfg[k]))
+	}
+	chain.DriverCfg = strings.Join(kv, ",")
 	e.last = e.project(e.c.Ctx()).(chain.M)
 	w.Write(tokEvent("Init"), e.last)
-	e.exec(beh, w)
 }
 
 // exec runs events: user messages are grouped perBlock to a block; authority
@@ -806,8 +825,7 @@ func tokRandom(fl *drv.Flags, rng *rand.Rand, w *chain.TraceWriter) {
 	set("regrd", fmt.Sprint(r.d))
 	fl2 := &drv.Flags{Cfg: cfg}
 	e := newTokEnv(fl2)
-	e.last = e.project(e.c.Ctx()).(chain.M)
-	w.Write(tokEvent("Init"), e.last)
+	e.start(w)
 
 	normal := []string{"u1", "u2", "u3"}
 	for b := 0; b < fl.Len; b++ {
